@@ -213,7 +213,9 @@ def vector_star_oracles(ss, vk, tol=1e-8):
 
 
 # ---------------------------------------------------------------- (2) direct assembly + projection
-def _cmp(out, sig, what, code, direct, tol, extra=None):
+def _cmp(out, sig, what, code, direct, tol, extra=None, osrows=None):
+    """osrows: indices of origin-state vector stars; when every differing entry lies on such a row (diagonal entry
+    for a matrix) the signature gets the suffix ':OSvstar'."""
     code, direct = np.asarray(code, dtype=float), np.asarray(direct, dtype=float)
     if code.shape != direct.shape:
         out.append((sig + ':shape', '%s: shapes %s vs %s' % (what, code.shape, direct.shape), {}))
@@ -226,6 +228,11 @@ def _cmp(out, sig, what, code, direct, tol, extra=None):
         d = dict(index=[int(x) for x in idx], code=float(code[idx]), direct=float(direct[idx]), maxdev=float(dev.max()),
                  nbad=int((dev > tol * scale).sum()))
         if extra: d.update(extra)
+        if osrows is not None:
+            bad = np.argwhere(dev > tol * scale)
+            if len(bad) and all(int(b[0]) in osrows and (code.ndim < 2 or code.shape[0] != code.shape[1] or b[0] == b[1])
+                                for b in bad):
+                sig = sig + ':OSvstar'
         out.append((sig, '%s: code %.12g vs directly assembled %.12g at %s (%d entries differ)'
                     % (what, code[idx], direct[idx], list(map(int, idx)), d['nbad']), d))
 
@@ -253,6 +260,7 @@ def projection_oracles(c, nrng, tol=1e-10):
     for s, PS in enumerate(states):
         if PS.iszero(): originstate[PS.i] = s
     tag = 'originstates' if len(c.OSindices) > 0 else 'plain'
+    osrows = {n for n in range(nv) if states[vk.vecpos[n][0]].iszero()}
 
     # ---- Green function: class values symmetric under exchange of the end points
     gss = c.GFstarset
@@ -319,7 +327,7 @@ def projection_oracles(c, nrng, tol=1e-10):
         _cmp(out, '%s:rate0expansion:%s' % (label, tag), label + ' omega0 reference rate expansion per jump type',
              exp0, np.stack([proj(A0[t]) for t in range(n0)], axis=2), tol)
         _cmp(out, '%s:rate0escape:%s' % (label, tag), label + ' omega0 reference escape expansion per jump type',
-             esc0arr, -np.einsum('si,ks->ik', U2, deg0), tol)
+             esc0arr, -np.einsum('si,ks->ik', U2, deg0), tol, osrows=osrows)
         _cmp(out, '%s:bias1expansion:%s' % (label, tag), label + ' bias expansion per class',
              b1arr, np.stack([projv(gb[k]) for k in range(nk)], axis=1) if nk else np.zeros((nv, 0)), tol)
         _cmp(out, '%s:bias0expansion:%s' % (label, tag), label + ' omega0 reference bias expansion per jump type',
@@ -340,7 +348,7 @@ def projection_oracles(c, nrng, tol=1e-10):
         D0 = -np.einsum('ks,ks->s', deg0, esc0[:, wyck_vac])
         code = np.dot(exp0, om0) + np.diag([np.dot(esc0arr[i, :], esc0[:, c.kin2vacancy[vstar2kin[i]]]) for i in range(nv)])
         _cmp(out, '%s:rate0matrix:%s' % (label, tag), label + ' omega0 reference rate matrix for random rates',
-             code, proj(W0 + sp.diags(D0)), tol)
+             code, proj(W0 + sp.diags(D0)), tol, osrows=osrows)
         bcode = np.array([sum(b1arr[i, k] * esc[k].get(vstar2kin[i], 0.) for k in range(nk)) for i in range(nv)])
         bdir = b.copy()
         _cmp(out, '%s:biasvector:%s' % (label, tag), label + ' bias vector for random escape rates', bcode, projv(bdir), tol)
